@@ -330,6 +330,12 @@ func vRunC15(c *vCase) {
 		}
 		b := p.Bytes()
 		save(b)
+		if len(b) >= 8150 {
+			c.Cov("roundtrips_of_packets_over_8150_bytes", 1)
+			if len(b) == 8192 {
+				c.Cov("roundtrips_of_8192_byte_packets", 1)
+			}
+		}
 		cr := &vCountingReader{r: bytes.NewReader(b)}
 		q, err := ReadPacket(cr)
 		if err != nil {
@@ -419,6 +425,46 @@ func vBuildPacket(r *rand.Rand) (p *Packet) {
 	frames := vPick(r, 1, 2, 5, 20, 100, 0) // also packets that announce a shape and carry no sample (simulated dropped data)
 	n := nchan * frames
 	var err error
+	if vChance(r, 0.08) {
+		// the largest packets the constructors make: the payload grows to NewData's own limit (whatever headers this packet has),
+		// then 0-2 frames less
+		w := vPick(r, 2, 4, 8)
+		build := func(k int) error {
+			switch w {
+			case 2:
+				d := make([]int16, k)
+				for i := range d {
+					d[i] = int16(r.Intn(65536))
+				}
+				return p.NewData(d, dims)
+			case 4:
+				d := make([]int32, k)
+				for i := range d {
+					d[i] = int32(r.Uint32())
+				}
+				return p.NewData(d, dims)
+			}
+			d := make([]int64, k)
+			for i := range d {
+				d[i] = int64(r.Uint64())
+			}
+			return p.NewData(d, dims)
+		}
+		k := (8192 / w / nchan) * nchan
+		for k > 0 && build(k) != nil {
+			k -= nchan
+		}
+		if less := r.Intn(3) * nchan; less > 0 && k > less {
+			k -= less
+			if build(k) != nil {
+				return nil
+			}
+		}
+		if k <= 0 {
+			return nil
+		}
+		return p
+	}
 	switch r.Intn(3) {
 	case 0:
 		if n*2 > 8000 {
@@ -494,8 +540,8 @@ func init() {
 			vRunC15(c)
 		},
 		Meta: vMeta{
-			Level: "exploration",
-			Rule:  "case = 60 hostile byte strings (random bytes; hand-assembled headers with every TLV type incl. shape without format, empty/multi-type/unknown formats, bad sizes and truncation; mutations of the repository's captured packets and of constructor-built packets) through ReadPacket and every accessor, plus 30 round trips of constructor-built packets (16/32/64 bit, 1-4 dims, offsets, sequence numbers, timestamps); a panic anywhere is a process crash attributed to the journaled case (the input is written to disk first)",
+			Level:       "exploration",
+			Rule:        "case = 60 hostile byte strings (random bytes; hand-assembled headers with every TLV type incl. shape without format, empty/multi-type/unknown formats, bad sizes and truncation; mutations of the repository's captured packets and of constructor-built packets) through ReadPacket and every accessor, plus 30 round trips of constructor-built packets (16/32/64 bit, 1-4 dims, offsets, sequence numbers, timestamps); a panic anywhere is a process crash attributed to the journaled case (the input is written to disk first)",
 			Assumptions: []string{"timestamp rates are positive and finite (Rate 0 is not a constructible clock)", "NewData's own size limit (8192 bytes) is respected: packets it rejects are not 'constructible'"},
 			Guards: map[string]map[string]int{
 				"quick":    {"inputs": 150000, "decoded_ok": 50000, "decode_errors": 20000, "decoded_with_frames": 20000, "roundtrips": 50000, "mutated_captures": 5000},
